@@ -79,6 +79,7 @@ type World struct {
 	FaultOps              []string // labels of the calls during which an injected fault fired
 	NeedReopen            bool     // a failed FlushRevert: contents unspecified until re-opened
 	OpenFailed            bool
+	ObserveRevertedSnaps  bool // C08: a snapshot is compared with its own flush stack right after its FlushRevert
 	BytesOrderOnly        bool               // the alphabet never creates a collection with a custom order
 	NoRoots               bool               // the file holds no root record and NewStore said so
 	DstFault              func(dst *MemFile) // arms fault injection on a CopyTo destination
@@ -242,6 +243,15 @@ func (w *World) callbacks() gkvlite.StoreCallbacks {
 		}
 	}
 	return cb
+}
+
+// ItemLive reports whether an item may be used under the reference-counting
+// contract (positive count, never released); true when no counting is active.
+func (w *World) ItemLive(it *gkvlite.Item) bool {
+	if w.RC == nil || it == nil {
+		return true
+	}
+	return w.RC.Counts[it] > 0 && !w.RC.Dead[it]
 }
 
 // release drops the reference the API handed to the caller.
@@ -930,6 +940,11 @@ func (w *World) RevertSnap(i int) {
 	}
 	w.Snaps[i].Exp.Revert()
 	w.Snaps[i].Reverted = true
+	if w.ObserveRevertedSnaps {
+		// C08: FlushRevert returns a (read-only) store to the state of the Flush
+		// before the most recent one it knows
+		w.observe(label+"/after", w.Snaps[i].St, w.Snaps[i].Exp.Cur, "revert", true)
+	}
 }
 
 // SnapRefused checks that a snapshot refuses Set, Delete and Flush.
@@ -1281,26 +1296,35 @@ func (w *World) DrainIters() {
 // visit of collection name; the visit must still deliver the version that
 // was current when it started.
 func (w *World) VisitNested(name string, innerName string, inner func()) {
+	w.VisitNestedMode(name, innerName, true, 0, inner)
+}
+
+// VisitNestedMode: withValue selects the value mode of the outer visit, at is
+// the index of the callback in which inner runs.
+func (w *World) VisitNestedMode(name string, innerName string, withValue bool, at int, inner func()) {
 	c := w.Colls[name]
 	mc := w.M.Cur.Colls[name].Clone()
-	label := fmt.Sprintf("VisitNested(%s){%s}", name, innerName)
+	label := fmt.Sprintf("VisitNested(%s,%v,#%d){%s}", name, withValue, at, innerName)
 	w.begin(label, false, false)
 	w.Trans++
 	keys := mc.SortedKeys()
 	var got []string
-	first := true
+	seen := 0
 	bad := false
-	err := c.VisitItemsAscend(LowTarget(mc.Cmp, keys), true, func(it *gkvlite.Item) bool {
+	err := c.VisitItemsAscend(LowTarget(mc.Cmp, keys), withValue, func(it *gkvlite.Item) bool {
+		if !w.ItemLive(it) {
+			w.Fail("refcount", "visited-item-released", "%s: the item passed to the visitor had been released (count %d)", label, w.RC.Counts[it])
+		}
 		got = append(got, string(it.Key))
 		ri, ok := mc.Items[string(it.Key)]
-		if !ok || it.Priority != ri.Prio || it.Val == nil || !bytes.Equal(it.Val, ri.Val) {
+		if !ok || it.Priority != ri.Prio || (withValue && it.Val == nil) || (it.Val != nil && !bytes.Equal(it.Val, ri.Val)) {
 			bad = true
 		}
-		if first {
-			first = false
+		if seen == at {
 			inner()
 			w.begin(label, false, false)
 		}
+		seen++
 		return true
 	})
 	if err != nil {
